@@ -226,6 +226,26 @@ func c17LocalUpdate(c *Ctx) {
 	if k == 0 {
 		c.R.Bad(rule, name+": stores", c.P.Pos(fn.Pos()), "update never inserts")
 	}
+	// every successful return follows an Insert: no condition short-cuts the join (a 'the tree
+	// already has a later value' exit also drops back-dated tombstones, which must win)
+	{
+		h := an.THooks{Instr: func(in ssa.Instruction, st an.TState) an.TState {
+			if cl, ok := in.(ssa.CallInstruction); ok && an.CalleeIs(cl, mastPkg, "Mast", "Insert") {
+				return ackState{set: true}
+			}
+			return st
+		}}
+		exits := an.WalkTypestate(fn, ackState{}, h, usc)
+		good := len(exits) > 0
+		why := ""
+		for _, ex := range exits {
+			if ex.ErrNil != 0 && !ex.St.(ackState).set {
+				good = false
+				why = "update can return success at " + c.P.Pos(ex.Ret.Pos()) + " without storing anything: whatever condition decides that (e.g. 'the stored value is later') is applied to tombstones too, and a tombstone must beat every value regardless of time"
+			}
+		}
+		c.R.Cond(good, rule, name+": every successful return follows a store", c.P.Pos(fn.Pos()), "no exit skips the join and the Insert", why)
+	}
 	// the join gets both the new and the existing value
 	for _, j := range joins {
 		first := j.Call.Args[0]
